@@ -952,6 +952,20 @@ def c07_prepare(ix, f, body, rule, tabs, right_names):
             need = None
             if infix and len(kinds) >= 2:
                 need = "an infix operator (branch %d) next to %d other recursive branch(es)" % (infix[0] + 1, len(kinds) - 1)
+            elif infix:
+                # a single infix branch: without a minimum binding power the right operand absorbs every
+                # further operator, i.e. the branch groups to the right; the property wants that only for
+                # `right` operator tokens (the tokens are read off the arms of the operator loop)
+                loops = [s for s in body if s.kind == "loop"]
+                ms = [s for s in loops[-1].body if s.kind == "match" and s.recv is not None] if loops else []
+                if len(ms) != 1:
+                    return None, "unexpected shape: operator loop without a single match on current"
+                toks = set()
+                for a in ms[0].arms:
+                    if not a.wild:
+                        toks |= a.toks
+                if not toks or not toks <= right_names:
+                    need = "a single infix branch whose operator tokens (%s) are not declared `right`: it has to group to the left" % ", ".join(sorted(toks - right_names))
             else:
                 for i, k in enumerate(kinds):
                     later = [j for j in range(i + 1, len(kinds)) if kinds[j] in ("left", "leftright")]
